@@ -6,11 +6,14 @@ d="$(cd "$1" && pwd)"; shift
 ids="$@"
 R="${SEED_REPO:-/repo}"; cd "$R" || exit 2
 if [ -n "$(git status --porcelain --untracked-files=no)" ]; then echo "repo dirty"; exit 2; fi
-echo "== demo on unchanged tree"; (cd "$R" && PYTHONPATH="$R" PYTHONWARNINGS=ignore /venv/bin/python "$d/demo.py" 2>&1 | tail -2; echo "exit=${PIPESTATUS[0]}")
+# the demos locate the repository relative to their own position (<repo>/SEEDED/<k>/demo.py): run a copy from there
+k="$(basename "$d" | sed 's/.*-//')"; mkdir -p "$R/SEEDED/$k"; cp "$d/demo.py" "$R/SEEDED/$k/demo.py"; demo="$R/SEEDED/$k/demo.py"
+trap 'rm -rf "$R/SEEDED"' EXIT
+echo "== demo on unchanged tree"; (cd "$R" && PYTHONPATH="$R" PYTHONWARNINGS=ignore /venv/bin/python "$demo" 2>&1 | tail -2; echo "exit=${PIPESTATUS[0]}")
 if ! git apply --check "$d/patch.diff" 2>/dev/null; then echo "PATCH DOES NOT APPLY"; git apply --check "$d/patch.diff"; exit 3; fi
 git apply "$d/patch.diff"
 echo "== repo tests with patch"; PYTHONPATH="$R" /venv/bin/python -m pytest -q -p no:cacheprovider --continue-on-collection-errors 2>&1 | tail -1
-echo "== demo with patch"; (cd "$R" && PYTHONPATH="$R" PYTHONWARNINGS=ignore /venv/bin/python "$d/demo.py" 2>&1 | tail -2; echo "exit=${PIPESTATUS[0]}")
+echo "== demo with patch"; (cd "$R" && PYTHONPATH="$R" PYTHONWARNINGS=ignore /venv/bin/python "$demo" 2>&1 | tail -2; echo "exit=${PIPESTATUS[0]}")
 cd /verif
 for i in $ids; do
   out=$(HABUTAX_REPO="$R" ./check $i --tier quick 2>&1)
